@@ -16,12 +16,12 @@ INV = {"C08": ["C08"], "C09": ["C09", "GlobDiffLaw"], "C10": ["C10"], "C11": ["C
 
 
 def cli_cfg(layouts, methods, xffs, horizon, vals, maxprep, fullgrid=False, export="none", exportn=1,
-            invs=(), cquirks="{}"):
+            invs=(), cquirks="{}", initmode="free"):
     lines = ["SPECIFICATION Spec", "CONSTANTS", "  Quirks = {}", "  CQuirks = " + cquirks,
              "  Layouts <- " + layouts, "  Methods <- " + methods, "  Xffs <- " + xffs,
              "  T0 = 100", "  Horizon = %d" % horizon, "  Vals <- " + vals, "  MaxPrep = %d" % maxprep,
              '  Export = "%s"' % export, "  ExportN = %d" % exportn,
-             "  FullGrid = %s" % ("TRUE" if fullgrid else "FALSE"), "VIEW CView"]
+             "  FullGrid = %s" % ("TRUE" if fullgrid else "FALSE"), '  InitMode = "%s"' % initmode, "VIEW CView"]
     if invs:
         lines.append("INVARIANTS " + " ".join(invs))
     lines.append("CHECK_DEADLOCK FALSE")
@@ -31,8 +31,10 @@ def cli_cfg(layouts, methods, xffs, horizon, vals, maxprep, fullgrid=False, expo
 # (layouts, methods, xffs, horizon, vals, maxprep, fullgrid)
 MC_PLAN = {
     "quick": [("CLayoutsQuick", "MethodSum", "XffZero", 1, "Vals1", 2, False),
-              ("CLayoutsTwo", "MethodSum", "XffZero", 0, "Vals1", 1, False)],      # layouts that differ only in a point count
-    "thorough": [("CLayoutsTwo", "MethodSum", "XffZero", 1, "Vals1", 2, False),("CLayoutsQuick", "MethodSum", "XffZero", 1, "Vals1", 3, False),
+              ("CLayoutsTwo", "MethodSum", "XffZero", 0, "Vals1", 1, False),      # layouts that differ only in a point count
+              ("CLayouts3", "MethodsSL", "XffZero", 0, "Vals2", 1, False, "coarse-agree")],   # 3 levels; coarsest agrees, finest differs
+    "thorough": [("CLayouts3", "MethodsSL", "XffZero", 1, "Vals2", 2, False, "coarse-agree"),
+                 ("CLayoutsTwo", "MethodSum", "XffZero", 1, "Vals1", 2, False),("CLayoutsQuick", "MethodSum", "XffZero", 1, "Vals1", 3, False),
                  ("CLayoutsQuick", "MethodsSL", "XffHalf", 1, "Vals2", 2, True),
                  ("CLayouts3", "MethodSum", "XffZero", 1, "Vals1", 2, False),
                  ("CLayoutsMix", "MethodSum", "XffZero", 1, "Vals1", 2, False)],
@@ -40,8 +42,10 @@ MC_PLAN = {
 # export: + rows per tree
 EXPORT_PLAN = {
     "quick": [("CLayoutsQuick", "MethodSum", "XffZero", 1, "Vals1", 2, False, 3),
-              ("CLayoutsTwo", "MethodSum", "XffZero", 0, "Vals1", 1, False, 4)],
-    "thorough": [("CLayoutsTwo", "MethodSum", "XffZero", 1, "Vals1", 2, False, 3),("CLayoutsQuick", "MethodSum", "XffZero", 1, "Vals1", 3, False, 2),
+              ("CLayoutsTwo", "MethodSum", "XffZero", 0, "Vals1", 1, False, 4),
+              ("CLayouts3", "MethodsSL", "XffZero", 0, "Vals2", 1, False, 6, "coarse-agree")],
+    "thorough": [("CLayouts3", "MethodsSL", "XffZero", 1, "Vals2", 2, False, 4, "coarse-agree"),
+                 ("CLayoutsTwo", "MethodSum", "XffZero", 1, "Vals1", 2, False, 3),("CLayoutsQuick", "MethodSum", "XffZero", 1, "Vals1", 3, False, 2),
                  ("CLayoutsQuick", "MethodsSL", "XffHalf", 1, "Vals2", 2, True, 4),
                  ("CLayouts3", "MethodSum", "XffZero", 1, "Vals1", 2, False, 3),
                  ("CLayoutsMix", "MethodSum", "XffZero", 1, "Vals1", 2, False, 3)],
@@ -69,6 +73,7 @@ CONSTANTS
   Export = "%s"
   ExportN = 0
   FullGrid = FALSE
+  InitMode = "free"
 INVARIANTS %s
 CHECK_DEADLOCK FALSE
 """
@@ -113,14 +118,20 @@ def _run_cli(prop, tier, seed, v, wd):
     trees = 0
     with cf.ThreadPoolExecutor(max_workers=4) as ex:
         futs = []
-        mcs, exps = MC_PLAN[tier], EXPORT_PLAN[tier]
+        mcs, exps = list(MC_PLAN[tier]), list(EXPORT_PLAN[tier])
+        if prop in ("C18", "C16"):
+            # physical slot order matters for view-raw: rings of 3 slots with gaps (first and last slot written, middle empty)
+            mcs.append(("CLayoutsTwo", "MethodSum", "XffZero", 1, "Vals1", 2, False))
+            exps.append(("CLayoutsTwo", "MethodSum", "XffZero", 1, "Vals1", 2, False, 3))
         nw = max(2, NCPU // max(1, min(4, len(mcs) + len(exps))))
-        for i, (lay, meth, xff, hor, vals, mp, fg) in enumerate(mcs):
-            cfg = cli_cfg(lay, meth, xff, hor, vals, mp, fg, invs=invs)
-            futs.append(("mc", (lay, meth, xff, hor, vals, mp, fg), ex.submit(run_tlc, wd, "MC_CLI", cfg, "mc%d" % i, nw, 7000)))
-        for i, (lay, meth, xff, hor, vals, mp, fg, rows) in enumerate(exps):
-            cfg = cli_cfg(lay, meth, xff, hor, vals, mp, fg, export="trees", exportn=rows, invs=["ExportTree"])
-            futs.append(("export", (lay, meth, xff, hor, vals, mp, fg, rows),
+        for i, pl in enumerate(mcs):
+            (lay, meth, xff, hor, vals, mp, fg), im = pl[:7], (pl[7] if len(pl) > 7 else "free")
+            cfg = cli_cfg(lay, meth, xff, hor, vals, mp, fg, invs=invs, initmode=im)
+            futs.append(("mc", pl, ex.submit(run_tlc, wd, "MC_CLI", cfg, "mc%d" % i, nw, 7000)))
+        for i, pl in enumerate(exps):
+            (lay, meth, xff, hor, vals, mp, fg, rows), im = pl[:8], (pl[8] if len(pl) > 8 else "free")
+            cfg = cli_cfg(lay, meth, xff, hor, vals, mp, fg, export="trees", exportn=rows, invs=["ExportTree"], initmode=im)
+            futs.append(("export", pl,
                          ex.submit(run_tlc, wd, "MC_CLI", cfg, "ex%d" % i, nw, 7000, None, None, None, ["-seed", str(seed)])))
         results = [(k, m, f.result()) for k, m, f in futs]
     for kind, meta, res in results:
@@ -192,6 +203,7 @@ CONSTANTS
   Export = "none"
   ExportN = 0
   FullGrid = FALSE
+  InitMode = "free"
 POSTCONDITION Accepted
 CHECK_DEADLOCK FALSE
 """
